@@ -191,7 +191,9 @@ type Node struct {
 	UpdatesIn   int
 	// OnAdjEvent is called for every adjudicator event relayed by Channel.Watch.
 	OnAdjEvent func(ch *client.Channel, e channel.AdjudicatorEvent)
-	watchWG    sync.WaitGroup
+	// NextAccNonce, if set, keys the nonce share of the next accepted proposal.
+	NextAccNonce string
+	watchWG      sync.WaitGroup
 	handleDone chan struct{}
 	CtxTimeout time.Duration
 }
@@ -256,6 +258,20 @@ func (w *World) AddNode(name string, accIdx int, pr persistence.PersistRestorer)
 	return n
 }
 
+// Counts returns how often the proposal and update handlers ran.
+func (n *Node) Counts() (proposals, updates int) {
+	n.mu.Lock()
+	defer n.mu.Unlock()
+	return n.ProposalsIn, n.UpdatesIn
+}
+
+// SetNextAccNonce keys the nonce share of the next proposal this node accepts.
+func (n *Node) SetNextAccNonce(k string) {
+	n.mu.Lock()
+	n.NextAccNonce = k
+	n.mu.Unlock()
+}
+
 // Chan returns the node's controller for a channel.
 func (n *Node) Chan(id channel.ID) *client.Channel {
 	n.mu.Lock()
@@ -274,8 +290,13 @@ func (n *Node) handleProposal(p client.ChannelProposal, r *client.ProposalRespon
 	n.mu.Lock()
 	n.ProposalsIn++
 	pol := n.OnProposal
+	nk := n.NextAccNonce
+	n.NextAccNonce = ""
 	n.mu.Unlock()
 	pname := n.W.S.PropName(p.Base().ProposalID)
+	if nk == "" {
+		nk = n.Name + pname
+	}
 	n.W.S.Event(n.Name, "handler:proposal", pname)
 	go func() {
 		accept, react := true, 50*time.Microsecond
@@ -293,11 +314,11 @@ func (n *Node) handleProposal(p client.ChannelProposal, r *client.ProposalRespon
 		var acc client.ChannelProposalAccept
 		switch pp := p.(type) {
 		case *client.LedgerChannelProposalMsg:
-			acc = pp.Accept(n.Acc.Addr, client.WithNonceFrom(nonceReader(n.W.S, n.Name+pname)))
+			acc = pp.Accept(n.Acc.Addr, client.WithNonceFrom(nonceReader(n.W.S, nk)))
 		case *client.SubChannelProposalMsg:
-			acc = pp.Accept(client.WithNonceFrom(nonceReader(n.W.S, n.Name+pname)))
+			acc = pp.Accept(client.WithNonceFrom(nonceReader(n.W.S, nk)))
 		case *client.VirtualChannelProposalMsg:
-			acc = pp.Accept(n.Acc.Addr, client.WithNonceFrom(nonceReader(n.W.S, n.Name+pname)))
+			acc = pp.Accept(n.Acc.Addr, client.WithNonceFrom(nonceReader(n.W.S, nk)))
 		}
 		ch, err := r.Accept(ctx, acc)
 		n.mu.Lock()
